@@ -20,8 +20,10 @@ RULE = (
     "ForStatement.scalar_type. R2 the Migrator's VerylWalker impl overrides exactly veryl_token and for_statement, and its for_statement "
     "passes the same check with the same two exceptions. R3 the token sink: veryl_token hands the token to Migrator::token, which pushes "
     "the token and then every comment of x.comments (no adapter, no early exit); push_token appends the interned text of x.text on every "
-    "path, everything else it appends is self.newline or a run of blanks, and no byte length flows into self.column (Token.column counts "
-    "characters). R4 cmd_migrate: the write of path.src is reached only after veryl_parser::Parser::parse accepted migrator.as_str() "
+    "path, everything else it appends is self.newline or a run of blanks, no byte length flows into self.column (Token.column counts "
+    "characters), and the column is advanced relatively by a text's character count only where the text's newline count is known to be zero; every generated "
+    "token type with a `comments` field is converted by an impl that splits and keeps them; COMMENT_REGEX matches whole every comment the "
+    "scanner's CommentsTerm (veryl.par) accepts (exhaustive comparison on all strings up to length 7 over the five characters the patterns distinguish). R4 cmd_migrate: the write of path.src is reached only after veryl_parser::Parser::parse accepted migrator.as_str() "
     "(not over the `?` error edge), only where `migrate` is true, and `migrate` is true only on the Err arm of parsing the input with the "
     "current parser or where Migrator::migratable says so; the text formatted and written is that same migrator's output."
 )
@@ -143,6 +145,17 @@ def run(world, tier, info, only=None):
                   "self.column receives a byte length (%s) while Token.column counts characters: after multi-byte text the gap to the next token "
                   "saturates to 0 and tokens are written glued together" % lens)
     ck.floor("R3", "writes to Migrator.column", ncol, 2)
+    import c28
+    nrel = 0
+    for q, sq in sorted(w.fns.items()):
+        if q.startswith(MIG + "::") and not sq.get("alias_of") and "{" not in q[len(MIG):]:
+            nrel += c28.relative_advance_guarded(ck, "R3", w, q, r"migrator::Migrator$", "column", q.split("::")[-1])
+    ck.floor("R3", "relative text advances of Migrator.column", nrel, 1)
+    ntk = walk.token_conversion_obligations(ck, "R3", w, "veryl_migrator")
+    ck.floor("R3", "previous-grammar tokens that may carry comments", ntk, 120)
+    import rxagree
+    import os
+    rxagree.check(ck, "R3", w, "veryl_migrator", "migrator", os.environ.get("VERIF_REPO", "/repo"))
     # ---------------- R4 cmd_migrate --------------------------------------------------------------------------
     s = w.fns[EXEC]
     g = Fn(w.mir(EXEC))
